@@ -40,11 +40,9 @@ Cfgs == <<
   Cfg(Lst(<<Rx("any")>>), Lst(<<Rx("py_anycase"), Rx("hidden")>>), Unset),   \* 14
   Cfg(Lst(<<Sfx(".JS"), Rx("no_ext")>>), Unset, Unset),                      \* 15 upper-case suffix
   Cfg(Lst(<<Rx("any")>>), Unset, Lst(<<Rx("test_part"), Sfx(".tar.gz")>>)), \* 16 deprecated name, mixed
-  Cfg(Lst(<<Sfx(".js"), Sfx(".css"), Sfx("LICENSE"), Sfx("noext")>>),
-      Lst(<<Sfx("_a.js"), Sfx(".py"), Sfx("min.js")>>), Unset),              \* 17 plain suffixes: whole names allowed,
-                                                                             \*    stem tail / extension part forbidden
-  Cfg(Lst(<<Sfx("js"), Sfx("z")>>), Unset, Lst(<<Sfx("$.js"), Sfx("y.js")>>))>>\* 18 dot-less extension, single letter,
-                                                                             \*    metacharacter; deprecated name
+  Cfg(Lst(<<Sfx(".css"), Sfx("js"), Sfx("LICENSE"), Sfx("noext")>>),         \* 17 plain suffixes (no leading dot): extension
+      Lst(<<Sfx("_a.js"), Sfx("min.js"), Sfx("y.js"), Sfx("$.js")>>), Unset) >>\*  without its dot and whole names allowed;
+                                                                             \*    stem tails / extension parts forbidden
 
 Parts(e) == Dirs[e.d] \o <<Names[e.n]>>
 PathStr(e) == JoinParts(Parts(e))
